@@ -66,7 +66,7 @@ class Interp(S.SeqRun):
                                                set([items[(m >> 11) % len(items)]] if k > 1 else []))
         return self._create(e, kw, rel_mids, set_mids)
 
-    def _create(self, e, kw, rel_mids, set_mids, via=None):
+    def _create(self, e, kw, rel_mids, set_mids, via=None, raw_rel=None):
         P = self.E[e.name]
         desc = 'new %s(%s)' % (e.name, ', '.join('%s=%r' % kv for kv in sorted(
             list(kw.items()) + [(k, '#%d' % v) for k, v in rel_mids.items()] +
@@ -77,7 +77,11 @@ class Interp(S.SeqRun):
         def pony():
             args = dict(kw)
             for k, m in rel_mids.items():
-                args[k] = self.handle(m)
+                if k == raw_rel:
+                    pk = self.view.objs[m].pk
+                    args[k] = pk[0] if len(pk) == 1 else pk     # raw primary key value instead of the object
+                else:
+                    args[k] = self.handle(m)
             for k, ms in set_mids.items():
                 args[k] = [self.handle(m) for m in ms]
             if via is None:
@@ -317,6 +321,89 @@ class Interp(S.SeqRun):
 
         return self.modify(desc, pony, model, mids=[mo.mid] + list(items))[0]
 
+    def op_seq_in(self, a, b, c):
+        """membership test, then add (or remove), then the same test again, flush, and once more: the
+        answers must follow the session view whether or not the collection is fully loaded"""
+        owners = [o for o in self.live_sorted() if self.schema.by_name[o.ent].sets()]
+        if not owners:
+            return None
+        mo = owners[a % len(owners)]
+        e = self.schema.by_name[mo.ent]
+        sa = e.sets()[b % len(e.sets())]
+        cands = [o.mid for o in self.live_sorted(sa.rel) if not (sa.rel == mo.ent and o.mid == mo.mid)]
+        if not cands:
+            return None
+        it = cands[c % len(cands)]
+        base = 'r_coll %s#%d.%s contains #%d' % (mo.ent, mo.mid, sa.name, it)
+
+        def contains(tag):
+            h = self.handle_or_poison(mo.mid)
+            ih = self.handle_or_poison(it)
+            ok, got = self.read(base + tag, lambda: ih in getattr(h, sa.name))
+            if ok:
+                self.expect(base + tag, got, it in self.view.partners(sa, mo.mid))
+
+        contains(' (before)')
+        present = it in self.view.partners(sa, mo.mid)
+        kind = 'remove' if present else 'add'
+        desc = '%s %s#%d.%s [\'#%d\']' % (kind, mo.ent, mo.mid, sa.name, it)
+
+        def pony():
+            coll = getattr(self.handle(mo.mid), sa.name)
+            (coll.remove if present else coll.add)(self.handle(it))
+
+        def model(v):
+            (v.coll_remove if present else v.coll_add)(mo.mid, sa, [it])
+
+        st = self.modify(desc, pony, model, mids=[mo.mid, it])[0]
+        if self.view.objs[it].deleted or self.view.objs[mo.mid].deleted:
+            return st        # a cascading remove deleted the item: membership of a deleted object is not asked
+        contains(' (after %s)' % kind)
+        if (c >> 5) % 2:
+            self.op_flush()
+            contains(' (after %s and flush)' % kind)
+        return st
+
+    def op_new_rawfk(self, a, b, c):
+        """create a dependent object passing a raw primary key value for its owner: the key of a stored row
+        (legitimate) or the key the database is about to generate for a not yet inserted object (must be
+        refused at flush at the latest; the identity map must never hold two objects for one key)"""
+        ents = [e for e in self.schema.entities if any(ra.required and self.schema.by_name[ra.rel].auto_pk
+                                                       for ra in e.to_ones())]
+        if not ents:
+            return None
+        e = ents[a % len(ents)]
+        ra = [x for x in e.to_ones() if x.required and self.schema.by_name[x.rel].auto_pk][0]
+        stored = [o for o in self.live_sorted(ra.rel) if o.stored and o.pk is not None]
+        known = [o.pk[0] for o in self.view.objs.values() if o.ent == ra.rel and o.pk is not None]
+        kw = self.scalar_kwargs(e, b, c)
+        P = self.E[e.name]
+        if stored and c % 2 == 0:
+            tgt = stored[(c >> 2) % len(stored)]
+            return self._create(e, kw, {ra.name: tgt.mid}, {}, raw_rel=ra.name)
+        guess = (max(known) if known else 0) + 1
+        desc = 'new %s(%s, %s=<raw pk %d of no stored row>)' % (e.name, ', '.join('%s=%r' % kv for kv in sorted(kw.items())),
+                                                               ra.name, guess)
+        self.cur_op_desc = desc
+        try:
+            P(**dict(kw, **{ra.name: guess}))
+        except Exception as ex:
+            self.trace.append('%s.%s FAIL %s -> %s' % (self.sess_index, self.op_index, desc, type(ex).__name__))
+            # even the refused call may have put a placeholder object for the guessed key into the identity
+            # map (adversarial input): the model cannot follow the session any further
+            raise S.Poisoned()
+        self.trace.append('%s.%s OK   %s' % (self.sess_index, self.op_index, desc))
+        self.probe('raw_fk_to_missing_row_accepted')
+        try:
+            flush()
+        except Exception as ex:
+            self.probe('raw_fk_to_missing_row_refused_at_flush')
+            raise S.Poisoned()
+        # the flush went through: the reference must now denote exactly one live object
+        self.after_op()
+        self.probe('raw_fk_to_missing_row_flushed')
+        raise S.Poisoned()
+
     def op_create_in(self, a, b, c):
         owners = [o for o in self.live_sorted() if self.schema.by_name[o.ent].sets()]
         if not owners:
@@ -522,6 +609,12 @@ class Interp(S.SeqRun):
             if ok:
                 self.expect(what, got, len(exp))
         else:
+            if self.knobs.get('prefetch'):
+                rels = [getattr(P, x.name) for x in e.attrs if x.is_rel]
+                what += ' .prefetch(all relations)'
+                q0 = q
+                q = lambda: q0().prefetch(*rels)
+                self.probe('prefetch_used')
             ok, got = self.read(what, lambda: self.mids(q()[:]))
             if ok:
                 self.expect(what, got, exp)
@@ -593,7 +686,7 @@ class Interp(S.SeqRun):
         e = self.schema.by_name[mo.ent]
         h = self.handle_or_poison(mo.mid)
         what = 'r_todict %s#%d' % (mo.ent, mo.mid)
-        ok, got = self.read(what, lambda: h.to_dict(with_collections=True, related_objects=True))
+        ok, got = self.read(what, lambda: h.to_dict(with_collections=True, related_objects=True, with_lazy=True))
         if not ok:
             return
         self.refresh_pks()
@@ -803,6 +896,10 @@ class Interp(S.SeqRun):
             self.op_coll(name, a, b, c)
         elif name == 'create_in':
             self.op_create_in(a, b, c)
+        elif name == 'seq_in':
+            self.op_seq_in(a, b, c)
+        elif name == 'new_rawfk':
+            self.op_new_rawfk(a, b, c)
         elif name == 'del':
             self.op_del(a, b, c)
         elif name == 'flush':
@@ -857,6 +954,13 @@ def run_case(case, scratch):
         run.db.disconnect()
     except Exception:
         pass
+    if case.get('retag_as'):
+        # the same oracles, run under loading knobs, are C23's evidence: observed data must not depend on
+        # the loading strategy
+        for v in list(run.violations):
+            if v['prop'] in ('C09', 'C10', 'C11', 'C12'):
+                run.violations.append({'prop': case['retag_as'], 'key': '%s|under-loading-knobs|%s' % (case['retag_as'], v['key']),
+                                       'detail': v['detail'] + ' [knobs %r]' % (case.get('knobs'),)})
     main_events = [ev for ev in c.events[n_setup:]]
     digest = hsh([[ev['g'], ev['kind'], ev.get('sql'), ev.get('params'), ev.get('rows'), ev.get('fault'),
                    ev.get('exc')] for ev in main_events] + [sorted(v['key'] for v in run.violations)])
